@@ -14,7 +14,7 @@ size_t TK_TOKENS;
  * POSX(off): output position of the segment that starts at off; RP_P (= GI2): an arbitrary output position; RP_GO: an arbitrary resume point. */
 _Bool __CPROVER_uninterpreted_bnd(size_t off);
 #define BND(off) __CPROVER_uninterpreted_bnd(off)
-size_t RP_TOTAL, RP_TAIL_OFF; const char *RP_OUT0;
+size_t RP_TOTAL, RP_TAIL_OFF, RP_TAIL_W; const char *RP_OUT0;
 #define RP_N (SR.n)
 #define RP_K (SR.k)
 #define RP_P GI2
@@ -33,3 +33,6 @@ size_t RP_TOTAL, RP_TAIL_OFF; const char *RP_OUT0;
     NXT(go) < RP_N && (go) <= NXT(go) && RP_K <= (off) && NXT(go) <= (off) - RP_K \
     && (RP_TN == RP_K || (REM(go) <= REM(0) && REM(go) >= (NXT(go) - (go)) + RP_TN + REM(off))) \
     && (!IN_LIT(go) || (buf)[RP_P] == EXP_LIT(go)) && (!IN_TO(go) || (buf)[RP_P] == EXP_TO(go))))
+#ifndef RP_NO_CONTENT
+#define RP_NO_CONTENT 0
+#endif
